@@ -198,8 +198,8 @@ def resume (s : State) (now : Nat) : State :=
       else s
     | .Finished | .Cancelled =>
       match s.finished with
-      | some (_, false) => { s with timer := { s.timer with ack := s.timer.ack.reset now } }
-      | _ => s
+      | some (_, true) => s
+      | _ => { s with timer := { s.timer with ack := s.timer.ack.reset now } }
   let s := { s with state := .Active }
   emit s (.resumed (getProgress s))
 
